@@ -98,6 +98,33 @@ func Inline(files Files, name string, depth int) (Inlined, error) {
 	return out, nil
 }
 
+// Resolve returns the program with every plain include line replaced by the lines of the file typed in place
+// (Inline) and the program's own definitions expanded everywhere (definition lines dropped).
+func Resolve(text string, files Files) (string, error) {
+	if !strings.Contains(text, "##!> include") && !strings.Contains(text, "##!> define") {
+		return text, nil
+	}
+	defs := map[string]string{}
+	var out []string
+	for _, raw := range strings.Split(text, "\n") {
+		line := strings.TrimLeft(strings.TrimSuffix(raw, "\r"), " \t")
+		switch {
+		case defLine.MatchString(line):
+			m := defLine.FindStringSubmatch(line)
+			defs[m[1]] = m[2]
+		case incLine.MatchString(line):
+			in, err := Inline(files, incLine.FindStringSubmatch(line)[1], 0)
+			if err != nil {
+				return "", err
+			}
+			out = append(out, in.Block()...)
+		default:
+			out = append(out, raw)
+		}
+	}
+	return ExpandDefs(strings.Join(out, "\n"), defs), nil
+}
+
 // Block renders the inlined file as lines to type in place: the bare entries, or an
 // explicit assemble block binding the file's prefixes and suffixes to its own entries.
 func (in Inlined) Block() []string {
